@@ -45,7 +45,24 @@ def _chan_sources(t):
     t.repo(CORE + "acquire-core-logger/logger.c")
 
 
+def _hal_sources(t):
+    t.verif("harness/hal/hal.cpp")
+    t.repo(CORE + "acquire-device-hal/device/hal/camera.c")
+    t.repo(CORE + "acquire-device-hal/device/hal/storage.c")
+    t.repo(CORE + "acquire-device-hal/device/hal/driver.c")
+    t.repo(CORE + "acquire-device-properties/device/props/device.c")
+    t.repo(CORE + "acquire-core-logger/logger.c")
+
+
 HARNESSES = {
+    "hal": {
+        "props": ["C11"],
+        "sources": _hal_sources,
+        "engines": ["rc", "rp", "fz"],
+        "quick": {"rc_cases": 20000, "rc_size": 50},
+        "thorough": {"rc_cases": 200000, "rc_size": 80, "fz_secs": 120},
+        "fz_max_tokens": 80,
+    },
     "chan": {
         "props": ["C01", "C02", "C03"],
         "sources": _chan_sources,
